@@ -30,7 +30,8 @@ ASBUILT = {
   plus random nets with random outages and permuted rows. Judged per pattern: junction clause, branch clause (hydraulic
   columns; any other number on an inactive row is `inactive_reports_<table>`), load/feeder clause, deletion equivalence against
   `reach.prune(spec)` (rtol 1e-7; observed 5e-12), "nothing supplied => PipeflowNotConverged", and a crash class
-  (`pipeflow_crashes_on_outage_pattern`). Loads at an out-of-service junction that in-service branches re-activate are not
+  (`pipeflow_crashes_on_outage_pattern`); a pattern that ends in PipeflowNotConverged although its pruned (supplied-only)
+  network converges is `supplied_part_not_calculated` (added after seeded change S04). Loads at an out-of-service junction that in-service branches re-activate are not
   judged (inconsistent input, statement silent). **Found and fixed:** inactive heat consumers / circulation pumps / pressure
   controllers reporting numbers, ext grid on an inactive junction reporting 0.0, IndexError with an out-of-service
   circulation pump next to an in-service one (reported by the S04 seeding agent, reproduced after adding a second pump).""",
@@ -43,7 +44,10 @@ ASBUILT = {
   produces NaN). (B) the real `newton_raphson` driven with **all** sequences of 22 symbols (11 error patterns incl. NaN x
   residual in/out) of length = budget 1-3 (quick, 22 308 scripts) / 1-4 (thorough, 490 k scripts), both methods, against the
   reference state machine; error magnitudes are powers of two on round start values so that "error rose" is exact (two harness
-  artefacts fixed before trusting it). **Found and fixed:** convergence accepted on a damped step (driver level only; none
+  artefacts fixed before trusting it). (A2, added after seeded change S05) the trace itself can lie - so every returned
+  hydraulics run with valid input is also compared with a tightly converged solve on a fresh build: the flows may deviate by at
+  most `10 tol_m + 20 e_n q/(1-q) + 1e-5` with `e_n` the last reported mdot change and `q` the last contraction ratio (observed
+  <= 1.7e-5 kg/s on the tree). **Found and fixed:** convergence accepted on a damped step (driver level only; none
   among 325 real automatic stage endings per run); accepted step partially restored (see C01).""",
 "C06": """* **As built (`props/c06.py`):** per case the base spec and three variants (relabel with shuffled / gapped / >= 1e5 / mixed
   labels, row permutation of every table on top of shuffled labels, creation shuffle) for gas, water and heating nets, all
@@ -51,8 +55,9 @@ ASBUILT = {
   compressor without flow (no unique lift). **Found and fixed:** `t_outlet_k` written to the wrong pipes for unsorted indices
   with different section counts.""",
 "C07": """* **As built (`props/c07.py`):** (a) 200 / 6000 random kernel batches with forced edge rows through all twin pairs
-  (hydraulic incompressible / compressible, both Nikuradse variants, mean pressure, derived values, thermal, grouped sums up
-  to index 250 000); residual-type outputs are judged, Jacobian-type differences are counted (df_dm at zero flow, mean-pressure
+  (hydraulic incompressible / compressible, both Nikuradse variants, mean pressure, derived values, thermal steady-state and
+  transient, grouped sums up to index 250 000 for int64 / int32 / uint32 index arrays, each engine also against a plain
+  dictionary accumulation - added after seeded changes S07 / S09); residual-type outputs are judged, Jacobian-type differences are counted (df_dm at zero flow, mean-pressure
   derivatives, thermal node derivatives differ by design). Differences explained by conditioning are accepted and counted:
   NaN flow (laminar part NaN vs 0 while Re is NaN in both), catastrophic cancellation of the mean-pressure formula for nearly
   equal pressures (forward error bound eps p/|p-p1|), the 1e-10 kg/s zero-flow cut of the thermal node term (<= 1e-4 W).
@@ -76,7 +81,8 @@ ASBUILT = {
   the fluid leaves through. A third of the passive two-feeder cases is refused by the thermal stage (a pt grid receiving
   flow) and counted as not comparable. **Found and fixed:** mixing weight `cp(cp)`.""",
 "C11": """* **As built (`props/c11.py`, `monitors.mon_c11`):** loops with 1-8 consumers in all five modes, flow-controlled heat
-  exchangers with positive and negative heat, three source kinds, sequential and bidirectional. Q = m cp_mean dT holds to
+  exchangers with positive and negative heat, 40 % of them entered against the flow direction (negative reported flow; added
+  after seeded change S11), three source kinds, sequential and bidirectional. Q = m cp_mean dT holds to
   1e-14 relative for exchangers and consumers; loop closure within the cp spread. **Found and fixed:** pump heat
   `m (cp(T_out) T_out - cp(T_in) T_in)`. **Open finding:** QE_TR consumers in non-bidirectional modes.""",
 "C12": """* **As built (`props/c12.py`, `fingerprint.py`):** the purity contract is evaluated by a sink on H1: a per-column fingerprint
